@@ -16,7 +16,7 @@ func init() {
 		LevelText:   "Structural clauses decided for all paths: every traversal whose order can influence assignments goes through the sorted iterator (rangeStreamsOrdered) and the remaining map ranges are order-insensitive; the heap comparator is a total order (ties broken by consumer id); the rebalance resets every subscriber of the stream, then gives each partition 0..n-1 to the Peek() of that stream's heap; group mutators are fenced by the group epoch; assignments are served only by the coordinator for the current epoch and as copies; stream deletion must not rebalance asynchronously to later applies. The exactly-one / differ-by-at-most-one arithmetic over all histories is not decided.",
 		LevelNote:   "Trusted: go/ssa; container/heap semantics (Init restores the invariant, index 0 is a minimum).",
 		DesignRef:   "DESIGN.md §4 C12",
-		Explanation: "R12.1 order-independence of traversals in groups.go, R12.2 comparator total order, R12.3 rebalance uses the right heap and covers all partitions, R12.4 epoch fences and coordinator-only copies, R12.5 (= R06.2a) no asynchronous rebalance on the apply path. NOT decided: the balance arithmetic over all histories.",
+		Explanation: "R12.1 order-independence of traversals in groups.go, R12.2 comparator total order, R12.3 rebalance uses the right heap and covers all partitions, R12.4 epoch fences and coordinator-only copies, R12.5 membership bookkeeping (join / leave / stream deletion update members, heaps and assignments together; presence tests; epoch advance; last-member result), R06.2 (shared) no asynchronous rebalance on the apply path and every group is told about a deleted stream, R06.8 (shared) restore order, R12.6 lock pairing. NOT decided: the balance arithmetic over all histories.",
 	})
 }
 
@@ -251,6 +251,10 @@ func runC12(c *eng.Ctx) {
 	ruleGroupBookkeeping(c)
 	c.Floor(25)
 
+	c.Rule("R06.8", "K2")
+	ruleRestoreOrder(c)
+	c.Floor(1)
+
 	// ---- R12.6 acquire/release pairing
 	c.Rule("R12.6", "K2")
 	ruleLockPairing(c, "server/groups.go")
@@ -282,7 +286,30 @@ func runC12(c *eng.Ctx) {
 				sd = true
 			}
 		})
-		c.Check(sd, "stream deletion reaches the groups", p.Pos(fn.Pos()), "StreamDeleted is invoked for every group", "removeStream no longer tells consumer groups about the deleted stream: assignments keep pointing at it")
+		// … every group, on every server: group state is replicated, not a coordinator-local cache
+		for _, mc := range closuresOf(fn) {
+			for _, sdc := range eng.CallsIn(mc, "server.consumerGroup.StreamDeleted") {
+				hdr := sdc.(ssa.Instruction).Block()
+				for hdr != nil && !isLoopHeader(hdr) {
+					hdr = hdr.Idom()
+				}
+				if hdr == nil {
+					sd = false
+					continue
+				}
+				var body []eng.Edge
+				for si, sb := range hdr.Succs {
+					if sb.Dominates(sdc.(ssa.Instruction).Block()) || sb == sdc.(ssa.Instruction).Block() {
+						body = append(body, eng.Edge{From: hdr, Succ: si})
+					}
+				}
+				q := &eng.PathQuery{Fn: mc, FromEdges: body, Target: func(x ssa.Instruction) bool { return x == hdr.Instrs[0] }, CutInstr: func(x ssa.Instruction) bool { return x == sdc.(ssa.Instruction) }}
+				if q.Find() != nil {
+					sd = false
+				}
+			}
+		}
+		c.Check(sd, "stream deletion reaches the groups", p.Pos(fn.Pos()), "StreamDeleted is invoked for every group", "removeStream does not tell every consumer group about the deleted stream (none, or only some — e.g. only those this server coordinates): on the other servers the members stay subscribed and keep its partitions, and after a coordinator change that stale state is served")
 	}
 	c.Floor(1)
 }
@@ -671,4 +698,13 @@ func ruleGroupBookkeeping(c *eng.Ctx) {
 		}
 		c.Check(w == nil, k+" advances the group epoch", p.Pos(fn.Pos()), "c.epoch = epoch before every successful return that changed the group", k+" can change the group and keep the old epoch (path "+w.String()+"): two different assignments exist for one group epoch")
 	}
+}
+
+// closuresOf lists fn and the anonymous functions defined in it (transitively).
+func closuresOf(fn *ssa.Function) []*ssa.Function {
+	out := []*ssa.Function{fn}
+	for _, a := range fn.AnonFuncs {
+		out = append(out, closuresOf(a)...)
+	}
+	return out
 }
